@@ -8,7 +8,9 @@
    the pre-chain and the post-chain IR is covered by the correspondence of checks/c01.py only. *)
 From Coq Require Import List String ZArith Bool.
 From Cog Require Import Model.GoSem Model.GoSemSpec08 Model.GoSemSpec01 Model.GoSemSpec01F Proofs.GoSemC01Proofs
-     Model.Src Model.FrontEnd Model.FrontEndSpec Proofs.FrontEndWitness Proofs.FrontEndFields Proofs.FrontEndAccept Proofs.FrontEndProofs.
+     Model.Src Model.FrontEnd Model.FrontEndSpec Proofs.FrontEndWitness Proofs.FrontEndFields Proofs.FrontEndAccept Proofs.FrontEndProofs
+     Model.FrontEndSpecOA Model.FrontEndSpecCue Model.FrontEndSpecCue2 Model.FrontEndChainSpec Model.FrontEndCue
+     Proofs.FrontEndOA Proofs.FrontEndOAWitness Proofs.FrontEndCueProofs Proofs.FrontEndChain Gen.Chains_gen Model.Process.
 Import ListNotations.
 Local Open Scope string_scope.
 
@@ -85,3 +87,72 @@ Theorem frontend_hypotheses_satisfiable : exists s tname d, src_wf s = true /\ s
   schema_fields_kept s = true.
 Proof. exact frontend_nonvacuous. Qed.
 Print Assumptions frontend_hypotheses_satisfiable.
+
+(* ---- round 2: no hypothesis on bounds or aliases left; OpenAPI and CUE; across the Go chain ---- *)
+Theorem parse_jsonschema_preserves_acceptance :
+  forall s tname d, src_wf s = true -> schema_no_constrained_typearray s = true ->
+    json_wf d = true -> json_ints_int64 d = true ->
+    str_in tname (map fst (src_defs s)) = true -> acceptance_agrees s tname d = true.
+Proof. exact parse_preserves_acceptance_partial_strong. Qed.
+Print Assumptions parse_jsonschema_preserves_acceptance.
+(* OpenAPI (after fix 7fed413): no exclusion beyond well-formedness of the schema in the grammar *)
+Theorem parse_openapi_preserves_acceptance :
+  forall s tname d, src_wf_oa s = true -> json_wf d = true -> json_ints_int64 d = true ->
+    str_in tname (map fst (src_defs s)) = true -> oa_acceptance_agrees s tname d = true.
+Proof. exact parse_openapi_preserves_acceptance_partial_strong. Qed.
+Print Assumptions parse_openapi_preserves_acceptance.
+Theorem parse_cue_preserves_acceptance :
+  forall s tname d, src_wf_cue s = true -> json_wf d = true -> str_in tname (map fst (src_defs s)) = true ->
+    cue_acceptance_agrees s tname d = true.
+Proof. exact parse_cue_preserves_acceptance_partial_strong. Qed.
+Print Assumptions parse_cue_preserves_acceptance.
+(* across the REGENERATED Go chain, on the fragment where the parsed IR is already in Go normal form (plain structs of
+   scalars, arrays, maps, references): the chain is NotRequiredFieldAsNullableType and nothing else, acceptance is
+   preserved, and source-valid documents round-trip: the END-TO-END statement of C01 on that fragment *)
+Theorem chain_go_on_plain_schemas : forall s, chain_plain s = true ->
+  process chain_go (parse_ctx s) = Ok (nrfn_only (parse_ctx s)).
+Proof. exact chain_go_plain_explicit. Qed.
+Print Assumptions chain_go_on_plain_schemas.
+Theorem chain_go_preserves_acceptance : forall s tname d out,
+  chain_plain s = true -> process chain_go (parse_ctx s) = Ok out ->
+  ir_accepts_doc (parse_ctx s) (src_pkg s) tname d = true -> ir_valid_object out (src_pkg s) tname d = true.
+Proof. exact chain_go_preserves_acceptance_fwd. Qed.
+Print Assumptions chain_go_preserves_acceptance.
+Theorem chain_go_acceptance_exact_without_nulls : forall s tname d out,
+  chain_plain_unconstrained s = true -> process chain_go (parse_ctx s) = Ok out -> json_null_free d = true ->
+  ir_accepts_doc (parse_ctx s) (src_pkg s) tname d = ir_valid_object out (src_pkg s) tname d.
+Proof. exact chain_go_preserves_acceptance_iff. Qed.
+Print Assumptions chain_go_acceptance_exact_without_nulls.
+Theorem src_valid_roundtrip_end_to_end : forall s tname d out,
+  chain_plain s = true -> json_wf d = true -> json_ints_int64 d = true ->
+  process chain_go (parse_ctx s) = Ok out -> ctx_supported out = true ->
+  str_in tname (map fst (src_defs s)) = true ->
+  src_valid_doc "jsonschema" s tname d = true ->
+  roundtrip_safeF out (src_pkg s) tname d = true ->
+  roundtrip_holds out (src_pkg s) tname d = true.
+Proof. exact src_valid_roundtrip_plain_strong. Qed.
+Print Assumptions src_valid_roundtrip_end_to_end.
+(* the chain WIDENS acceptance on null optional members (NotRequiredFieldAsNullableType), and narrows it on a
+   required `any` given null (finding C08-strict-decoder-rejects-null-the-schema-allows) *)
+Theorem chain_go_changes_acceptance_of_nulls :
+  (chain_plain_unconstrained sOpt = true /\ json_wf dOptNull = true /\
+   process chain_go (parse_ctx sOpt) = Ok (nrfn_only (parse_ctx sOpt)) /\
+   src_valid_doc "jsonschema" sOpt "Root" dOptNull = false /\
+   ir_accepts_doc (parse_ctx sOpt) (src_pkg sOpt) "Root" dOptNull = false /\
+   ir_valid_object (nrfn_only (parse_ctx sOpt)) (src_pkg sOpt) "Root" dOptNull = true) /\
+  (src_wf sAny = true /\ exists out, process chain_go (parse_ctx sAny) = Ok out /\
+   src_valid_doc "jsonschema" sAny "Root" dAnyNull = true /\
+   ir_accepts_doc (parse_ctx sAny) (src_pkg sAny) "Root" dAnyNull = true /\
+   ir_valid_object out (src_pkg sAny) "Root" dAnyNull = false).
+Proof. split; [exact chain_go_acceptance_null_witness|exact chain_go_any_null_witness]. Qed.
+Print Assumptions chain_go_changes_acceptance_of_nulls.
+Theorem end_to_end_hypotheses_satisfiable :
+  chain_plain sPlain = true /\ schema_bounds_small sPlain = true /\ json_wf dPlain = true /\ json_ints_int64 dPlain = true /\
+  process chain_go (parse_ctx sPlain) = Ok outPlain /\ ctx_supported outPlain = true /\
+  str_in "Root" (map fst (src_defs sPlain)) = true /\ src_valid_doc "jsonschema" sPlain "Root" dPlain = true /\
+  roundtrip_safeF outPlain (src_pkg sPlain) "Root" dPlain = true /\
+  ir_accepts_doc (parse_ctx sPlain) (src_pkg sPlain) "Root" dPlain = true /\
+  ir_valid_object outPlain (src_pkg sPlain) "Root" dPlain = true /\
+  roundtrip_holds outPlain (src_pkg sPlain) "Root" dPlain = true.
+Proof. exact chain_plain_nonvacuous. Qed.
+Print Assumptions end_to_end_hypotheses_satisfiable.
